@@ -414,6 +414,47 @@ def work_metakeys(job):
     return r
 
 
+ADDR_ATOMS = ['ü', 'é', '中', '\U0001F600', 'ß', '&', "'", '"', '%', '+', '-', '_', 'x', '9', '#', ';', '=']
+
+
+def work_addresses(job):
+    """autolinked e-mail addresses and URLs whose host part holds characters outside ASCII or XML-special ones (the HTML writer obfuscates e-mail
+    addresses character by character into numeric references)"""
+    seed, lo, hi = job
+    r = core.JobResult()
+    with core.Session(r) as s:
+        for i in range(lo, hi):
+            rng = core.job_rng(seed, ID, 'addr', i)
+            host = 'b' + ''.join(rng.choice(ADDR_ATOMS) for _ in range(rng.randint(1, 5))) + 'cher.example'
+            form = rng.choice(['Write to <info@%s> today.\n', '# Contact <info@%s> #\n\ntext\n', '* item <mailto:info@%s>\n', 'See <http://%s/p?a=1&b=2> here.\n', '| a | <info@%s> |\n|---|---|\n| c | d |\n'])
+            src = (form % host).encode('utf-8')
+            ext = rng.choice([D.EXT_CLI, D.EXT_CLI | D.EXT['OBFUSCATE'], D.EXT_CLI | D.EXT['COMPLETE'], D.EXT_CLI_COMPAT])
+            for fname in ('epub', 'fodt', 'odt', 'opml', 'itmz'):
+                fmt = D.FMT[fname]
+                rq = D.req_to_json('asan', 'CONVERT', fmt, ext, 0, 1 | (1 << 4), [src])
+                rep = s.call('asan', 'CONVERT', fmt, ext, 0, 1 | (1 << 4), [src], crash_is_violation=False)
+                r.evaluations += 1
+                if rep is None or rep.status:
+                    continue
+                if fname in MEMBERS:
+                    try:
+                        z = zipfile.ZipFile(io.BytesIO(rep.out))
+                        docs = [('%s:%s' % (fname, n.split('/')[-1]), z.read(n)) for n in z.namelist() if n.endswith(MEMBERS[fname])]
+                    except Exception:
+                        continue
+                else:
+                    docs = [(fname, rep.out)]
+                for name, data in docs:
+                    r.stats['address_xml_documents_parsed'] += 1
+                    e = wellformed(data)
+                    if e is not None:
+                        off = getattr(e, 'byte_index', 0)
+                        r.violate('not-wellformed:%s:autolink-address' % name, '%s is not well-formed XML: %s at line %d (autolinked address with host %r)' % (name, expat.ErrorString(e.code), e.lineno, host),
+                                  dict(requests=[rq], member=name), 'around: %s\nsource: %s' % (core.show(data[max(0, off - 100):off + 40], 240), core.show(src, 200)))
+            r.distinct.add(core.h64('addr', src, ext))
+    return r
+
+
 def main():
     chk = core.Check(ID)
     n = chk.scale(12000, 300000)
@@ -427,6 +468,8 @@ def main():
     chk.run_jobs(work_rawfilter, [(chk.seed, lo, min(nr, lo + 40)) for lo in range(0, nr, 40)])
     ni = chk.scale(1600, 30000)
     chk.run_jobs(work_images, [(chk.seed, lo, min(ni, lo + 50)) for lo in range(0, ni, 50)])
+    na = chk.scale(480, 9000)
+    chk.run_jobs(work_addresses, [(chk.seed, lo, min(na, lo + 30)) for lo in range(0, na, 30)])
     nk = chk.scale(1150, 23000)
     chk.run_jobs(work_metakeys, [(chk.seed, lo, min(nk, lo + 46)) for lo in range(0, nk, 46)])
     return chk.finish()
